@@ -61,6 +61,13 @@ func (ex *Exec) formatOracle(where string) {
 			ex.violate("format", "bytes-differ", "%s: %s differs from the reference encoding at offset %d (committed length %d)", where, name, d, seg.CommittedLen)
 			return
 		}
+		// an index frame closes a segment: nothing is ever committed behind one
+		for bi := 0; bi+1 < len(seg.Batches); bi++ {
+			if seg.Batches[bi].HasIndex {
+				ex.violate("format", "index-frame-not-last", "%s: %s has an index frame in committed batch %d of %d: frames were committed behind an index frame", where, name, bi+1, len(seg.Batches))
+				return
+			}
+		}
 		offs := seg.EntryOffsets()
 		for _, o := range offs {
 			if o%8 != 0 {
